@@ -22,6 +22,8 @@ if [ "$REPO" != "/repo" ]; then
   BIN="$ROOT/build/mod-$tag/$id"
 fi
 export VERIF_REPO_DIR="$REPO"
+# evidence, replays and known findings live next to this script unless redirected (development only)
+export VERIF_DIR="${VERIF_DIR:-$ROOT}"
 if [ -x "$ROOT/mc/checks/$id/build.sh" ]; then
   # checks that need a special build (source instrumentation, overlays) provide their own builder:
   # build.sh <repo-dir> <output-binary>; must rebuild from <repo-dir>'s current working tree.
